@@ -852,6 +852,20 @@ func (x *Exec) trCall(e *Expr, env *Env) (Term, error) {
 				return tBool(ok), nil
 			}
 			return val, nil
+		case "durationParses", "durationOf":
+			args, err := trArgs()
+			if err != nil {
+				return Term{}, err
+			}
+			if len(args) != 1 || args[0].Sort != SStr {
+				return Term{}, fmt.Errorf("%s(s) needs a string", callee.Name)
+			}
+			x.vc.declFun("uf_dur_parses", []string{SStr}, SBool)
+			x.vc.declFun("uf_dur_of", []string{SStr}, SInt)
+			if callee.Name == "durationOf" {
+				return tInt(app("uf_dur_of", args[0].S)), nil
+			}
+			return tBool(app("uf_dur_parses", args[0].S)), nil
 		case "urlParses":
 			args, err := trArgs()
 			if err != nil {
